@@ -118,3 +118,28 @@ func TestJoseEncryptedAssumptions(t *testing.T) {
 		}
 	}
 }
+
+// Assumed in jose.spec: Validate accepts a token up to jwt.DefaultLeeway (one minute) after exp,
+// ValidateWithLeeway(e, 0) refuses every token whose exp lies before e.Time.
+func TestJoseLeewayModel(t *testing.T) {
+	if jwt.DefaultLeeway != time.Minute {
+		t.Fatalf("jwt.DefaultLeeway = %v, the model says one minute", jwt.DefaultLeeway)
+	}
+	r := rng()
+	for i := 0; i < 2000; i++ {
+		now := time.Unix(1700000000+int64(r.Intn(1000000)), 0)
+		ago := time.Duration(1+r.Intn(200)) * time.Second
+		c := jwt.Claims{Issuer: "rdpgw", Expiry: jwt.NewNumericDate(now.Add(-ago))}
+		e := jwt.Expected{Issuer: "rdpgw", Time: now}
+		if err := c.ValidateWithLeeway(e, 0); err == nil {
+			t.Fatalf("ValidateWithLeeway(0) accepted a token that expired %v ago", ago)
+		}
+		if err := c.Validate(e); (err == nil) != (ago <= time.Minute) {
+			t.Fatalf("Validate on a token expired %v ago: %v", ago, err)
+		}
+		live := jwt.Claims{Issuer: "rdpgw", Expiry: jwt.NewNumericDate(now.Add(ago))}
+		if err := live.ValidateWithLeeway(e, 0); err != nil {
+			t.Fatalf("ValidateWithLeeway(0) refused a token valid for another %v: %v", ago, err)
+		}
+	}
+}
